@@ -53,6 +53,7 @@ type Profile struct {
 	Extend       bool
 	NoBodyVerbs  bool // GET/DELETE/HEAD endpoints whose payload is fully mapped to params
 	Examples     bool
+	ParamHeavy   bool // favour path/query/header/cookie mappings and arrays of primitives
 	// Avoid lists open known findings (quirk IDs) whose input class the
 	// generator must not emit; every avoidance is counted.
 	Avoid map[string]bool
@@ -71,7 +72,7 @@ func Wide() Profile {
 func Request() Profile {
 	return Profile{Name: "request", MaxServices: 2, MaxMethods: 3, MaxFields: 6, Runtime: true,
 		Validations: true, Defaults: true, UserTypes: true, Aliases: true, Recursive: true, MultiRoute: true, BasePaths: true, Cookies: true,
-		ExplicitBody: true, Maps: true, Bytes: true, NoBodyVerbs: true, PrimPayloads: true, Errors: true}
+		ExplicitBody: true, Maps: true, Bytes: true, NoBodyVerbs: true, PrimPayloads: true, Errors: true, ParamHeavy: true}
 }
 
 // Response is the C03 profile.
@@ -408,6 +409,9 @@ func (g *G) typ(depth int, self string) *m.Type {
 	case c <= 12:
 		g.feat("array")
 		elem := &m.Attr{Type: g.typ(depth-1, self)}
+		if g.p.ParamHeavy && rapid.IntRange(0, 9).Draw(t, "primelem") < 7 {
+			elem = m.Prim(rapid.SampledFrom([]m.Kind{m.String, m.String, m.String, m.Int, m.Float64, m.Boolean, m.UInt32, m.Int64}).Draw(t, "elemkind"))
+		}
 		if elem.Type.Kind == m.Object || elem.Type.Kind == m.Union {
 			elem.Type = &m.Type{Kind: g.prim()}
 		}
@@ -630,6 +634,25 @@ func (g *G) validation(a *m.Attr, depth int) *m.Validation {
 			v.MinLen, v.MaxLen = ip(lo), ip(hi)
 		}
 		g.feat("collection-length")
+		// a map cannot have more entries than its key domain has values
+		if res, _ := g.d.Resolve(a); res != nil && res.Type.Kind == m.Map && res.Type.Key != nil {
+			kv := MergedValidation(g.d, res.Type.Key)
+			max := -1
+			if n := len(kv.Enum); n > 0 {
+				max = n
+			}
+			if kv.Pattern != "" || kv.Format != "" {
+				max = 2 // the value pools of patterns and formats are small
+			}
+			if max >= 0 {
+				if v.MinLen != nil && *v.MinLen > max {
+					v.MinLen = ip(max)
+				}
+				if v.MinLen != nil && v.MaxLen != nil && *v.MaxLen < *v.MinLen {
+					v.MaxLen = ip(*v.MinLen)
+				}
+			}
+		}
 	default:
 		return nil
 	}
